@@ -190,7 +190,7 @@ func checkC04(c AgreeCase) Outcome {
 }
 
 func TestC04_Agreement(t *testing.T) {
-	rec := NewRecorder("C04", "agreement", "strings = valid trees / token sequences incl. open spellings / single token edits / raw bytes; lists of 0-8 such strings with repeats (40% of lists all valid single terms); oracle: ValidateLicenses(L) == [s in L | s invalid alone], ExtractLicenses errs iff invalid (and then returns nil), Satisfies errs iff expr invalid or list empty or an entry invalid/compound (and then returns false); non-trivial = list mixes valid and invalid entries, or has a compound entry, or the expression is invalid; distinct by content")
+	rec := NewRecorder("C04", "agreement", "strings = valid trees / token sequences incl. open spellings / single token edits / raw bytes; lists of 0-8 such strings with repeats and with confusable twins of earlier entries (re-cased, tabs for blanks, blanks doubled / trimmed / collapsed) (40% of lists all valid single terms); oracle: ValidateLicenses(L) == [s in L | s invalid alone], ExtractLicenses errs iff invalid (and then returns nil), Satisfies errs iff expr invalid or list empty or an entry invalid/compound (and then returns false); non-trivial = list mixes valid and invalid entries, or has a compound entry, or the expression is invalid; distinct by content")
 	defer rec.Finish(t)
 	rec.Rapid(t, func(rt *rapid.T) {
 		var c AgreeCase
@@ -220,6 +220,30 @@ func TestC04_Agreement(t *testing.T) {
 		for i := 0; i < n; i++ {
 			if i > 0 && rapid.IntRange(0, 5).Draw(rt, fmt.Sprintf("dup%d", i)) == 0 {
 				c.List = append(c.List, rapid.SampledFrom(c.List).Draw(rt, fmt.Sprintf("dupOf%d", i)))
+				continue
+			}
+			if i > 0 && rapid.IntRange(0, 5).Draw(rt, fmt.Sprintf("twin%d", i)) == 0 {
+				// a confusable twin of an earlier entry of the SAME list: equal after case folding or after
+				// whitespace normalisation, yet possibly of different validity (operators, reference
+				// prefixes and the blank are exact) - the shape a per-call memo with a folded key gets wrong
+				src := rapid.SampledFrom(c.List).Draw(rt, fmt.Sprintf("twinOf%d", i)).S.S()
+				var tw string
+				switch rapid.IntRange(0, 5).Draw(rt, fmt.Sprintf("twinHow%d", i)) {
+				case 0:
+					tw = strings.ToLower(src)
+				case 1:
+					tw = strings.ToUpper(src)
+				case 2:
+					tw = strings.ReplaceAll(src, " ", "\t")
+				case 3:
+					tw = " " + strings.ReplaceAll(src, " ", "  ") + " "
+				case 4:
+					tw = strings.TrimSpace(src)
+				default:
+					tw = strings.Join(strings.Fields(src), " ")
+				}
+				c.List = append(c.List, entryFromRaw(tw, "twin"))
+				rec.Class("list-has-twin")
 				continue
 			}
 			c.List = append(c.List, drawEntry(rt, fmt.Sprintf("e%d", i), allSingle))
